@@ -160,7 +160,8 @@ def r2(F, R):
             inst = f"{fn}/{kw}"
             # ---- regex
             consts, exprs = [], []
-            lazies = [b for b in F.bodies.values() if regex is not None and b.name.startswith(regex.name + "::")]
+            # (the lazily compiled regex lives in a static nested in the `regex` closure, or next to it in the same `submit!` block)
+            lazies = [b for b in F.bodies.values() if b.crate == sb.crate and b.name.startswith(sb.name + "::") and not (func is not None and (b is func or b.name.startswith(func.name + "::")))]
             for lb in lazies:
                 for s, t in lb.calls():
                     if callee_is(t, r"Regex::new$"):
@@ -190,10 +191,13 @@ def r2(F, R):
             typed = spec.get("args", [])
             n_extra = len(typed) + (1 if spec.get("slice") else 0) + (1 if spec.get("step") else 0)
             R.check(len(args) == 1 + n_extra, f"{inst}/arity", cs, "", f"{len(args)} arguments passed; expected {1 + n_extra}")
+            # one `next()` per typed argument on the iterator over the captures (further `next()`s inside a loop merge the groups of one
+            # multi-group parameter; iterators over characters etc. are not the capture iterator)
             nexts = sorted([(s, t) for s, t in cb.calls(lambda t: callee_is(t, r"Iterator::next$") and "Skip<" in (op_fn(t["func"]) or {}).get("full", "") and
-                                                         "Enumerate<" not in (op_fn(t["func"]) or {}).get("full", ""))], key=lambda x: _dom_rank(cb, x[0]))
+                                                         "Enumerate<" not in (op_fn(t["func"]) or {}).get("full", "") and "Chars" not in (op_fn(t["func"]) or {}).get("full", ""))
+                            if not cb.in_cycle(s) or spec.get("slice")], key=lambda x: _dom_rank(cb, x[0]))
             parses = sorted([(s, t) for s, t in cb.calls(lambda t: callee_is(t, r"str::<impl str>::parse$", r"::parse$"))], key=lambda x: _dom_rank(cb, x[0]))
-            skips = [(s, t) for s, t in cb.calls(lambda t: callee_is(t, r"Iterator::skip$"))]
+            skips = [(s, t) for s, t in cb.calls(lambda t: callee_is(t, r"Iterator::skip$") and "Chars" not in (op_fn(t["func"]) or {}).get("full", ""))]
             if typed:
                 R.check(len(skips) == 1 and const_int(skips[0][1]["args"][1]) == 1, f"{inst}/skips-whole-match", skips[0][0] if skips else cs, "matches.iter().skip(1)",
                         "the capture iterator does not skip exactly the whole match")
@@ -330,6 +334,44 @@ def r3(F, R):
             R.check(not short, f"group-window-consumed/{fn_name or top.short[-30:]}#{wseq[fn_name]}", s, "the parameter's group window is consumed completely",
                     f"the groups of one parameter (`take(n)` of the shared captures iterator) are consumed by the short-circuiting `{callee_path(t).rsplit('::', 1)[-1]}`: "
                     "groups it does not visit stay in the iterator and are parsed as the NEXT argument")
+    # explicit-loop spelling of the same merge: `for _ in 0..to_take { if let Some(g) = iter.next() { if acc.is_none() && !g.is_empty() { acc = Some(g) } } }`
+    # — the capture iterator is advanced on EVERY way round the counting loop (all groups of the parameter are consumed), and the
+    # accumulator is overwritten only while it is still None and only with a non-empty group (the FIRST non-empty group wins)
+    lseq = {}
+    for b in sorted(F.bodies.values(), key=lambda x: x.span or ""):
+        if b.crate != "cucumber_verif_zoo":
+            continue
+        for s, t in b.calls(lambda t: callee_is(t, r"Iterator::next$") and "Range<" in (op_fn(t["func"]) or {}).get("full", "")):
+            if not b.in_cycle(s):
+                continue
+            loop = A.natural_loop(b, s.bb)
+            inner = [(s2, t2) for s2, t2 in b.calls(lambda t2: callee_is(t2, r"Iterator::next$") and "Skip<" in (op_fn(t2["func"]) or {}).get("full", "") and
+                                                    "Chars" not in (op_fn(t2["func"]) or {}).get("full", "")) if s2.bb in loop]
+            if len(inner) != 1:
+                continue
+            top = F.root_fn(b)
+            fn_name = None
+            for nb in F.nested(top):
+                for _, t2 in nb.calls():
+                    if callee_path(t2) in ZOO:
+                        fn_name = callee_path(t2)
+            lseq[fn_name] = lseq.get(fn_name, 0) + 1
+            consumed = A.for_loop_handles_every_element(b, s, t, {inner[0][0].bb})
+            R.check(consumed, f"group-window-consumed/{fn_name or top.short[-30:]}#{lseq[fn_name]}", s, "every turn of the counting loop advances the capture iterator",
+                    "a turn of the loop over one parameter's groups can skip `next()` on the capture iterator: left-over groups are parsed as the NEXT argument")
+            # accumulator writes inside the loop
+            ok_acc, n_w = True, 0
+            for s3, st3 in b.assigns(lambda st3: st3["rv"]["k"] == "agg" and st3["rv"].get("adt") == "std::option::Option" and st3["rv"].get("variant") == "Some"):
+                if s3.bb not in loop or not b.locals[st3["pl"]["l"]].startswith("std::option::Option<&"):
+                    continue
+                n_w += 1
+                gs = A.guards_of(b, s3)
+                none_ok = any((g.cond_def() or [None])[0] == "call" and callee_is(g.cond_def()[2], r"Option::<.*>::is_none$") and g.polarity() is True for g in gs) or \
+                    any((g.cond_def() or [None])[0] == "discr" and g.variants() == {"None"} for g in gs)
+                nonempty_ok = any((g.cond_def() or [None])[0] == "call" and callee_is(g.cond_def()[2], r"::is_empty$") and g.polarity() is False for g in gs)
+                ok_acc = ok_acc and none_ok and nonempty_ok
+            R.check(ok_acc and n_w >= 1, f"first-non-empty-group/{fn_name or top.short[-30:]}#{lseq[fn_name]}", s, "acc is replaced only while None, only by a non-empty group",
+                    "in the loop over one parameter's groups the chosen group can be replaced by a later one, or an empty group can be chosen")
     R.floor(8)
 
 
@@ -343,11 +385,13 @@ def r4(F, R):
     for b in sorted(F.bodies.values(), key=lambda x: x.span or ""):
         if b.crate != "cucumber_verif_zoo":
             continue
-        folds = [(s, t) for s, t in b.calls(lambda t: callee_is(t, r"Iterator::fold$"))]
         pushes = [(s, t) for s, t in b.calls(lambda t: callee_is(t, r"Vec::<.*>::push$"))]
-        if not folds or not pushes:
+        slices = [(s, t) for s, t in b.calls(lambda t: callee_is(t, r"Vec::<.*>::as_slice$"))]
+        if not pushes or not slices:
             continue
-        nexts = [(s, t) for s, t in b.calls(lambda t: callee_is(t, r"Iterator::next$")) if any(sf.bb in A.natural_loop(b, s.bb) for sf, _ in folds)]
+        # the loop over the capture groups: the `Iterator::next` loop(s) around the push of the element vector (however one element
+        # is assembled inside: a fold, a helper fn, an inner loop over the groups of one parameter)
+        nexts = [(s, t) for s, t in b.calls(lambda t: callee_is(t, r"Iterator::next$")) if b.in_cycle(s) and any(sp.bb in A.natural_loop(b, s.bb) for sp, _ in pushes)]
         top = F.root_fn(b)
         fn_name = None
         for nb in F.nested(top):
